@@ -105,6 +105,11 @@ func (it *Generator) Send(arg Object) (Object, error) {
 	if it.Frame.Yielded {
 		return res, nil
 	}
+	// The generator function returned - the return value (if any) is
+	// carried by the StopIteration
+	if res != nil && res != None {
+		return nil, exceptionNew(StopIteration, Tuple{res})
+	}
 	return nil, StopIteration
 }
 
